@@ -427,17 +427,18 @@ func concurrentAdmins(r *monitor.Run, kind string, idx int) {
 	former := map[string][]string{}
 	seq := 0
 	rounds := r.Pick(12, 60)
+	const nUsers = 16 // callers in flight at once
 	for round := 0; round < rounds; round++ {
 		var wg sync.WaitGroup
-		errs := make(chan error, 16)
+		errs := make(chan error, 2*nUsers)
 		next := map[string]string{}
 		for k, v := range accounts {
 			next[k] = v
 		}
-		for w := 0; w < 8; w++ {
+		for w := 0; w < nUsers; w++ {
 			u := fmt.Sprintf("user%d", w)
 			pw := fmt.Sprintf("pw-%d-%d-%d", idx, round, w)
-			if w == round%8 && round > 0 {
+			if w == round%nUsers && round > 0 {
 				// this one is deleted in this round (it exists since an earlier round)
 				if old, ok := accounts[u]; ok {
 					former[u] = append(former[u], old)
@@ -473,7 +474,7 @@ func concurrentAdmins(r *monitor.Run, kind string, idx int) {
 		}
 		accounts = next
 		r.Count("concurrent_account_call_rounds", 1)
-		if round%4 != 3 && round != rounds-1 {
+		if round%2 != 1 && round != rounds-1 {
 			continue
 		}
 		// restart on the file the plugin wrote
@@ -488,8 +489,8 @@ func concurrentAdmins(r *monitor.Run, kind string, idx int) {
 		}
 		r.Count("restarts", 1)
 		r.Eval(1)
-		users := make([]string, 0, 9)
-		for w := 0; w < 8; w++ {
+		users := make([]string, 0, nUsers+1)
+		for w := 0; w < nUsers; w++ {
 			users = append(users, fmt.Sprintf("user%d", w))
 		}
 		for _, u := range append(users, "root") {
